@@ -29,8 +29,8 @@ macro_rules! int_elem {
 int_elem!(i8, u8; i16, u16; i32, u32; i64, u64; i128, u128; u8, u8; u16, u16; u32, u32; u64, u64; u128, u128);
 
 /// A fixed-point layout (one of the 506 aliases).
-pub trait Lay: Elem + Fixed + serde::Serialize + serde::de::DeserializeOwned + scale_info::TypeInfo {
-    type Int: Elem + serde::Serialize + serde::de::DeserializeOwned + scale_info::TypeInfo;
+pub trait Lay: Elem + Fixed + scale_info::TypeInfo {
+    type Int: Elem + scale_info::TypeInfo;
     const W: u32;
     const SIGNED: bool;
     const STRUCT_NAME: &'static str;
@@ -55,10 +55,25 @@ pub trait Lay: Elem + Fixed + serde::Serialize + serde::de::DeserializeOwned + s
     // Wrapping<F>
     fn wfb(b: u128) -> Wrapping<Self>;
     fn wtb(w: Wrapping<Self>) -> u128;
+}
+
+/// The serde side of a layout; only exists when substrate-fixed is built with its `serde` feature.
+#[cfg(feature = "sf-serde")]
+pub trait LaySerde: Lay + serde::Serialize + serde::de::DeserializeOwned {
+    /// the underlying integer again, with its serde bounds spelled out
+    type SInt: Elem + serde::Serialize + serde::de::DeserializeOwned;
     // serde impls of Wrapping<F> exist per family, not generically
     fn w_serialize<S: serde::Serializer>(self, s: S) -> Result<S::Ok, S::Error>;
     fn w_deserialize<'de, D: serde::Deserializer<'de>>(d: D) -> Result<Self, D::Error>;
 }
+#[cfg(feature = "sf-serde")]
+pub trait LayAll: LaySerde {}
+#[cfg(feature = "sf-serde")]
+impl<T: LaySerde> LayAll for T {}
+#[cfg(not(feature = "sf-serde"))]
+pub trait LayAll: Lay {}
+#[cfg(not(feature = "sf-serde"))]
+impl<T: Lay> LayAll for T {}
 
 macro_rules! lay_impl {
     ($F:ident, $LeEq:ident, $I:ty, $U:ty, $n:expr, $signed:expr, $name:expr) => {
@@ -141,6 +156,10 @@ macro_rules! lay_impl {
             fn wtb(w: Wrapping<Self>) -> u128 {
                 w.to_bits() as $U as u128
             }
+        }
+        #[cfg(feature = "sf-serde")]
+        impl<Fr: $LeEq + scale_info::TypeInfo + 'static> LaySerde for $F<Fr> {
+            type SInt = $I;
             fn w_serialize<S: serde::Serializer>(self, s: S) -> Result<S::Ok, S::Error> {
                 serde::Serialize::serialize(&Wrapping(self), s)
             }
@@ -532,7 +551,7 @@ impl Ops {
     }
 }
 
-pub fn ops<T: Lay>(name: &'static str, fam: u8, frac: u32) -> Ops {
+pub fn ops<T: LayAll>(name: &'static str, fam: u8, frac: u32) -> Ops {
     Ops {
         name,
         fam,
